@@ -23,6 +23,7 @@ def replay(rec, expected):
     out = {'steps': [], 'errors': []}
     try:
         execs = {a: {} for a in APP}
+        prev_rows = []
         for i, op in enumerate(rec['hist']):
             exp = expected.get(key_of(rec['hist'][:i + 1]))
             st = {'index': i, 'op': op, 'expected': exp}
@@ -34,16 +35,26 @@ def replay(rec, expected):
                     project.set_installed(installed)
                 hists[a].deploy(project, op['v'])
                 continue
-            if op['op'] == 'run':
-                res = project.run({'action': 'command', 'name': 'evolve',
-                                   'options': {'execute': True, 'interactive': False, 'verbosity': 0}})
+            if op['op'] in ('run', 'runonly'):
+                if op['op'] == 'run':
+                    res = project.run({'action': 'command', 'name': 'evolve',
+                                       'options': {'execute': True, 'interactive': False, 'verbosity': 0}})
+                else:
+                    # limited to one app: only the API can do that (the command refuses app labels
+                    # together with --execute); like the command, evolve only if required
+                    res = project.run({'action': 'evolve_api', 'apps': [APP[a] for a in op['apps']],
+                                       'only_if_required': True})
                 sigs = [e['ev'] for e in res['events']]
                 executed = {a: [] for a in APP}
                 for e in res['events']:
                     if e['ev'] == 'applying_evolution':
                         a = [k for k, v in APP.items() if v == e.get('app')][0]
                         executed[a] += [int(l[1:]) for l in e.get('labels') or []]
-                if res['outcome'] == 'ok' and 'evolved' in sigs:
+                ours = any(e['ev'] in ('creating_models', 'applying_evolution') and e.get('app') in APP.values()
+                           for e in res['events'])
+                now = sorted(tuple(r[:2]) for r in res['post']['default']['book']['evolutions']
+                             if r[0] in APP.values())
+                if res['outcome'] == 'ok' and 'evolved' in sigs and (ours or now != prev_rows):
                     st['outcome'] = 'executed'
                 elif res['outcome'] == 'ok':
                     st['outcome'] = 'nothing'
@@ -83,6 +94,8 @@ def replay(rec, expected):
             st['rows'] = rows
             st['execs'] = {a: dict(v) for a, v in execs.items()}
             out['steps'].append(st)
+            prev_rows = sorted(tuple(r[:2]) for r in res['post']['default']['book']['evolutions']
+                               if r[0] in APP.values())
         # what the user is told: list-evolutions must list exactly the recorded rows
         if out['steps'] and installed:
             ls = project.run({'action': 'command', 'name': 'list-evolutions'})
